@@ -83,6 +83,19 @@ def intd(s: str) -> int:
         return 0
 
 
+def hint_tok(h) -> str:
+    """hints of the library's default summarizer as tokens: a<n> = 'attempted n steps', k = 'stuck repeating', e = errors"""
+    if isinstance(h, str):
+        m = re.match(r"Previous worker attempted: (\d+) steps$", h)
+        if m:
+            return "a" + m.group(1)
+        if h.startswith("Worker got stuck repeating same output"):
+            return "k"
+        if h.startswith("Encountered errors"):
+            return "e"
+    return str(h)
+
+
 STEP_OUT = {"a": "aaa", "b": "bbb", "c": "ccc", "S": "SUCCESS", "F": "FiNiShEd", "o": "it is solved",
             "C": "incomplete", "n": "SUCCES", "m": "DON E", "f": "finish", "v": "solve", "k": "complet e",
             "0": "", "_": "   ", "K": "z" * 3000 + " done", "E": "Step limit reached, task failed"}
@@ -189,7 +202,7 @@ class C18(Prop):
                   "reassign": "".join(rng.choice("ggrRj") for _ in range(n)) + "g",
                   "random": "".join(rng.choice("gggjeLMxbsntKUP") for _ in range(n))}[fam]
         else:
-            gs = rng.choice(["g", "g", "e", "ge", "L", "M", "gMe", "j", "".join(rng.choice("gjeLMbsntKUP") for _ in range(n)),
+            gs = rng.choice(["g", "g", "e", "ge", "L", "M", "gMe", "j", "H", "gH", "".join(rng.choice("gjeLMbsntKUP") for _ in range(n)),
                              "g" * k + "x", "b", "s", "n", "gb", "bg", "Pe", "K", "U", rng.choice("bsnt") * k + "g"])
             inv = rng.choice("IIIWNE")
             val = rng.choice("VVHQZBT")
@@ -198,6 +211,8 @@ class C18(Prop):
                   "random": "".join(rng.choice("IIIWNEVHQZBTXA") for _ in range(n))}[fam]
             if fam == "alt":
                 fs = ("".join((inv, val)[(i + k) % 2] for i in range(n)))
+            if "H" in gs and rng.random() < 0.7:     # the mock healing generator heals on the error of validator call 1
+                fs = rng.choice(["IIA", "IIA", "IWA", "I", "IIIA"])
             if fam == "reassign":     # the generator itself assigns loop.max_retries (r: = 0, R: += 2) while heal runs
                 gs = "".join(rng.choice("ggrR") for _ in range(n)) + "g"
         return gs or "-", fs or "-"
@@ -269,8 +284,10 @@ class C18(Prop):
         else:
             ss = ["".join(rng.choice("uuuuaabcnmfvkSdFoCx0_NKLE") for _ in range(rng.randint(0, nst))) or "-"
                   for _ in range(rng.randint(1, nsp))]
-        fs = rng.choice(["w", "w", "w", "w", "wr", "r", "w" * j + "x", "".join(rng.choice("wwwrx") for _ in range(nsp))])
-        ms_ = rng.choice(["h", "h", "h", "e", "he", "h" * j + "x", "".join(rng.choice("hhex") for _ in range(nsp))])
+        fs = rng.choice(["w", "w", "w", "w", "wr", "r", "w" * j + "x", "".join(rng.choice("wwwrxS") for _ in range(nsp)),
+                         "S", "Sr", "wS"])
+        ms_ = rng.choice(["h", "h", "h", "e", "he", "h" * j + "x", "".join(rng.choice("hhexD") for _ in range(nsp)),
+                          "D", "D", "hD"])
         return f"supervise {fs} {'|'.join(ss)} {ms_}"
 
     def _gen_swarm(self, rng):
@@ -425,6 +442,9 @@ class C18(Prop):
             return head + "z" * (201 - len(head) - len(tail)) + tail
         if item == "e":
             return "echo " + "".join(f"<{n}>" for n in sorted(nonces(ctx)))
+        if item == "H":     # the library's own convenience generator, asked for this one attempt
+            mock = self.cl.create_mock_healing_generator(f"garbage <{i}>", '{"x": %d, "note": "<%d>"}' % (i, i), "<101>")
+            return mock("P<7>", ctx)
         if item == "b":
             return ""
         if item == "s":
@@ -676,6 +696,9 @@ class C18(Prop):
                     raise AdvError("factory")
                 if item == "r" and not first:
                     w = self.last
+                elif item == "S":      # the library's own SimpleWorker around the scripted step (it records its memory itself)
+                    w = prop.rs.SimpleWorker(id=name, work_function=lambda task, memory: adv.step(w, task, record=False))
+                    self.last = w
                 else:
                     w = W(name)
                     self.last = w
@@ -686,7 +709,7 @@ class C18(Prop):
                 rec["ms"] = [self.ms[-1]]        # the step budget in force when this worker is started (and later values)
                 return w
 
-            def step(self, w, task):
+            def step(self, w, task, record=True):
                 rec = self.spawns[-1]
                 if len(rec["steps"]) >= CAP:
                     rec["steps"].append(None)
@@ -708,7 +731,8 @@ class C18(Prop):
                 else:
                     out = {"d": f"all done <{g}>", "N": f"terminé ñ 价格 <{g}>", "L": "z" * 3000 + f" <{g}>"}.get(item, f"out <{g}>")
                 rec["steps"].append(out)
-                w.memory.add_attempt(task, out)
+                if record:
+                    w.memory.add_attempt(task, out)
                 if item in "yY":
                     sw.max_steps_per_worker = 0 if item == "y" else sw.max_steps_per_worker + 1
                     self.ms.append(sw.max_steps_per_worker)
@@ -725,6 +749,10 @@ class C18(Prop):
                 if item == "x":
                     rec["summ"] = "x"
                     raise AdvError("summarizer")
+                if item == "D":        # the library's own default summarizer on the worker's real memory
+                    h = prop.rs.create_default_summarizer()(mem)
+                    rec["summ"] = ".".join(hint_tok(x) for x in h) or "-"
+                    return h
                 h = [] if item == "e" else [f"h{i + 10}"]
                 rec["summ"] = ".".join(h) or "-"
                 if item in "lg":
@@ -744,7 +772,7 @@ class C18(Prop):
             return "".join(ch for ch in str(s) if ch.isdigit()) or "?"
 
         def hs(h):
-            return ".".join(h) if h else "-"
+            return ".".join(hint_tok(x) for x in h) if h else "-"
         sps = "[" + ",".join(f"{dig(r['name'])}:{hs(r['hints'])}:{r['worker']}:{len(r['steps'])}"
                              f"{'!' if r['raised'] else ''}{'' if r['task_ok'] else '?task'}:{r['summ']}"
                              for r in adv.spawns) + "]"
